@@ -78,7 +78,7 @@ def main():
     json.dump(meta, open(os.path.join(d, "meta.json"), "w"), indent=1)
     print(json.dumps({k: meta[k] for k in ("seed_id", "property", "confirmed", "tests_passed_with_change", "demo_exit_with_change", "demo_exit_without_change", "detected_by")}, indent=1))
     for c, v in verdicts.items(): print(c, v["exit"], v["keys"][:3], v["last"][:160])
-    shutil.rmtree(os.path.join(VERIF, "replays"), ignore_errors=True)
+    for c in [prop] + extra: shutil.rmtree(os.path.join(VERIF, "replays", c), ignore_errors=True)   # only this property's (parallel evaluations of other properties keep theirs)
     for m in made:
         shutil.rmtree(m, ignore_errors=True)
 
